@@ -199,6 +199,10 @@ pub fn run(ctx: &Ctx) -> i32 {
         }
       }
       cells.extend(extra);
+      // half-word sweeps (every value of the low / high 16 bits of one coordinate)
+      if (ctx.quick() && [17u8, 20, 29].contains(&d)) || (!ctx.quick() && d >= 14) {
+        cells.extend(halfword_sweep_cells(d));
+      }
       cells.sort();
       cells.dedup();
       for &h in &cells {
